@@ -6,7 +6,7 @@ ID = "C29"
 LEVEL = "exploration"
 RULE = ("for each target in {x86_64, arm, arm:thumb, riscv, riscv:rvc} and each optimisation level in {0,1,2,s}: every case of the "
         "vf/gen/irgen29 families restricted to the value types the target declares -- every binary/unary operator x type x operand "
-        "source (parameter, same parameter twice, loaded value, constant from V13, global address), every cast pair, every comparison, "
+        "source (parameter, same parameter twice, loaded value, constant from V13 as right / V7 (thorough V13) as left operand, global address), every cast pair, every comparison, "
         "loads/stores through 7 address shapes x 18 offsets, global/function addresses as values, calls with 0..12 (thorough 16) "
         "arguments of every type and rotated type mixes to external/local/indirect callees with and without result, 4..16 (thorough 32) "
         "simultaneously live values of every type and of mixed widths (plain, across a call, as parameters, around div/rem/shift), phis, "
@@ -298,7 +298,10 @@ def ub_suffix(ident):
 def full_key(target, fail, ident):
     """Locus key of a single case's failure; an operator+type without any pattern is one locus whatever the operands are."""
     k = key_of(target, fail)
-    if isinstance(ident, dict) and not re.search(r"/uncovered:\w+$", k):
+    if isinstance(ident, dict):
+        m = re.search(r"/uncovered:(\w+)(\(.*\))?$", k)
+        if m and (m.group(2) is None or not m.group(1).startswith(("SHL", "SHR", "DIV", "REM"))):
+            return k        # no pattern at all for the operator, or the uncovered node is not the operator: operands do not matter
         k += ub_suffix(ident)
     return k
 
